@@ -63,6 +63,8 @@ type C16DCase struct {
 	// UARule: the --header list ends with a rule about a field the proxy and its HTTP library have opinions of their own
 	// on: "remove" (-User-Agent), "prefix" (-user-a*), "add" (User-Agent: rq-ua, only when the client sends none).
 	// ClientUA: the client sends a User-Agent. What reaches the next hop is what the rule says, nothing made up.
+	// Reply: what the plain request is answered with: "" 200 with a body | "head" (the request is a HEAD) | "204" | "304"
+	Reply    string `json:"reply,omitempty"`
 	UARule   string `json:"ua_rule,omitempty"`
 	ClientUA bool   `json:"client_ua,omitempty"`
 }
@@ -134,6 +136,7 @@ func genC16D(t *rapid.T) C16DCase {
 	c.OriginH = rapid.SliceOfDistinct(rapid.SampledFrom(all), rapid.ID[string]).Draw(t, "responsefields")
 	sort.Strings(c.ClientH)
 	sort.Strings(c.OriginH)
+	c.Reply = rapid.SampledFrom([]string{"", "", "head", "204", "304"}).Draw(t, "reply")
 	if rapid.IntRange(0, 2).Draw(t, "uarule") == 0 {
 		c.UARule = rapid.SampledFrom([]string{"remove", "prefix", "add"}).Draw(t, "uarulekind")
 		c.ClientUA = c.UARule != "add" && rapid.Bool().Draw(t, "clientua")
@@ -243,11 +246,21 @@ func getEnv16() (*c16dEnv, error) {
 			names := e.respH[r.Msg.First("X-Vid")]
 			e.mu.Unlock()
 			var sb strings.Builder
-			sb.WriteString("HTTP/1.1 200 OK\r\nContent-Length: 2\r\n")
+			// the reply may be one without a body: to a HEAD request, a 204, a 304
+			status, body := "200 OK\r\nContent-Length: 2", "ok"
+			switch {
+			case r.Msg.Method == "HEAD":
+				body = ""
+			case strings.HasSuffix(r.Msg.Target, "/c16-204"):
+				status, body = "204 No Content", ""
+			case strings.HasSuffix(r.Msg.Target, "/c16-304"):
+				status, body = "304 Not Modified", ""
+			}
+			sb.WriteString("HTTP/1.1 " + status + "\r\n")
 			for _, n := range names {
 				fmt.Fprintf(&sb, "%s: rv-%s\r\n", n, n)
 			}
-			sb.WriteString("\r\nok")
+			sb.WriteString("\r\n" + body)
 			return []byte(sb.String()), false
 		}
 		var err error
@@ -399,21 +412,33 @@ func runC16D(c C16DCase) (fails []vstat.Failure) {
 		if c.ClientUA {
 			ua = "User-Agent: cv-agent/1.0\r\n"
 		}
-		fmt.Fprintf(tc, "GET http://%s/c16 HTTP/1.1\r\nHost: %s\r\nX-Vid: %s\r\n%s%s\r\n", e.origin.Addr, e.origin.Addr, vid, ua, clientWire.String())
-		m, err := ReadResponse(bufio.NewReader(tc), "GET")
+		method, path, wantStatus := "GET", "/c16", 200
+		switch c.Reply {
+		case "head":
+			method = "HEAD"
+		case "204":
+			path, wantStatus = "/c16-204", 204
+		case "304":
+			path, wantStatus = "/c16-304", 304
+		}
+		fmt.Fprintf(tc, "%s http://%s%s HTTP/1.1\r\nHost: %s\r\nX-Vid: %s\r\n%s%s\r\n", method, e.origin.Addr, path, e.origin.Addr, vid, ua, clientWire.String())
+		m, err := ReadResponse(bufio.NewReader(tc), method)
+		if err == nil && m.Status == wantStatus {
+			m.Status = 200 // judged like any other answer below
+		}
 		tc.Close()
 		if err != nil || m.Status != 200 {
 			fails = append(fails, vstat.Failf(key("get:functional"), "GET through the binary failed (%v, %+v); %s; binary says: %s", err, m, desc, tailOf(output.String())))
 		} else {
-			if r := find(last, since, vid, "GET"); r == nil {
-				fails = append(fails, vstat.Failf(key("get:functional"), "the GET never reached %s; %s", last.Name, desc))
+			if r := find(last, since, vid, method); r == nil {
+				fails = append(fails, vstat.Failf(key("get:functional"), "the %s never reached %s; %s", method, last.Name, desc))
 			} else if d := compareMarkers(c.Request, markerFields(r.Msg.Fields), dApply(c.Request, clientFields)); d != "" {
 				fails = append(fails, vstat.Failf(key("get:request"), "non-CONNECT request as forwarded: %s (client sent %q); %s", d, c.ClientH, desc))
 			}
 			if d := compareMarkers(c.Response, markerFields(m.Fields), dApply(c.Response, originFields)); d != "" {
 				fails = append(fails, vstat.Failf(key("get:response"), "non-CONNECT response as delivered: %s (origin sent %q); %s", d, c.OriginH, desc))
 			}
-			if r := find(last, since, vid, "GET"); r != nil && c.UARule != "" {
+			if r := find(last, since, vid, method); r != nil && c.UARule != "" {
 				var want []string
 				if c.UARule == "add" {
 					want = []string{"rq-ua"}
@@ -545,6 +570,9 @@ func classifyC16D(c C16DCase) (bool, string, []string) {
 	cls := []string{fmt.Sprintf("upstream=%v", c.Upstream), fmt.Sprintf("mitm=%v", c.MITM)}
 	if c.UARule != "" {
 		cls = append(cls, "user-agent-rule-"+c.UARule)
+	}
+	if c.Reply != "" {
+		cls = append(cls, "bodiless-reply-"+c.Reply)
 	}
 	lists := 0
 	for n, l := range map[string][]DRule{"request": c.Request, "connect": c.Connect, "response": c.Response} {
